@@ -459,6 +459,11 @@ def length(a):
         return a[2][0]
     if tag == 'call' and a[1] == 'split' and len(a[2]) == 2 and not a[3]:
         return add(length(a[2][1]), ('const', 1))          # np.split(x, I) has len(I) + 1 pieces
+    if tag == 'call' and a[1] == 'append' and len(a[2]) == 2 and not a[3]:
+        # np.append(x, y): as many elements as both together (a number counts as one)
+        parts = [('const', 1) if (isnum(x) or is_scalar(x)) else length(x) for x in a[2]]
+        if not any(p_[0] == 'len' and p_[1][0] in ('param', 'opaque') for p_ in parts):
+            return add(parts[0], parts[1])
     if tag == 'call' and a[1] == 'interp' and a[2]:
         return length(a[2][0])                   # np.interp returns one value per query point
     if tag == 'call' and a[1] == 'arange' and len(a[2]) == 1 and not a[3]:
@@ -615,6 +620,9 @@ def cmp_(op, a, b):
         r = constval(a) == constval(b)
         return ('const', r if op == 'Eq' else not r)
     if op in ('In', 'NotIn'):
+        if isconst(a) and isconst(b) and isinstance(a[1], str) and isinstance(b[1], str):
+            r = a[1] in b[1]                       # substring test on two literal strings
+            return ('const', r if op == 'In' else not r)
         if constval(a) is not _NOVAL and b[0] in ('tuple', 'list') and all(constval(x) is not _NOVAL for x in b[1]):
             r = any(constval(x) == constval(a) for x in b[1])
             return ('const', r if op == 'In' else not r)
@@ -730,6 +738,15 @@ def binv(t):
 
 
 def gamma(c, a, b):
+    # found-flag elimination: `found = False; ret = None; for ..: if p: ret = X; found = True; break` then `ret if found else D` is the first-match search
+    # started from D
+    if c[0] == 'loopout' and a[0] == 'loopout' and len(c) == 5 and len(a) == 5 and c[1] == a[1] and c[4] == a[4] and c[4] != FALSE and c[2] == FALSE \
+            and c[3][0] == 'gamma' and c[3][1] == c[4] and c[3][2] == TRUE and c[3][3][0] == 'carried' \
+            and a[3][0] == 'gamma' and a[3][1] == a[4] and a[3][3][0] == 'carried' and a[3][3][4] == a[2]:
+        me_a = a[3][3]
+        me_new = ('carried', 0, me_a[2], me_a[3], b)
+        if not any(x == me_a for x in walk(a[3][2])):
+            return ('loopout', a[1], b, ('gamma', a[4], a[3][2], me_new), a[4])
     if c == TRUE:
         return a
     if c == FALSE:
